@@ -662,10 +662,10 @@ def check_default_deps(ctx, R="C06.defaults"):
 
 
 def check(ctx):
-    check_cycle_detection(ctx)
-    check_default_deps(ctx)
-    check_docs_table(ctx)
-    check_deps_cover(ctx)
-    check_errors(ctx)
-    check_fold(ctx)
-    check_2d_rewrite(ctx)
+    ctx.run(check_cycle_detection)
+    ctx.run(check_default_deps)
+    ctx.run(check_docs_table)
+    ctx.run(check_deps_cover)
+    ctx.run(check_errors)
+    ctx.run(check_fold)
+    ctx.run(check_2d_rewrite)
